@@ -19,7 +19,8 @@ runtime's, not enumerated.
   (e) negative controls: a valid trace with Bob's upstream settle moved before the downstream settle / a
       balance changed must be rejected.
 Named deviation O4 (an add stranded between CommitCircuits and the forwarder by a reconnect of the incoming link;
-StrandQuirk) is a candidate finding reported under key C08:add-stranded-by-reconnect when a trace needs it.
+StrandQuirk; finding F22, repaired in /repo 1a31165) is reported under key C08:add-stranded-by-reconnect when a trace
+needs it.
 Finding F17 / observation O3 (a link did not send the commit_sig it owed after a reconnect; repaired in /repo
 1abb1ae) stays in the specs as the named deviation OwedSigQuirk (FALSE in every committed run); the directed plan
 spec/Forwarding/repro/O3_plan.ndjson runs with every batch, and a trace that validates only with the deviation
@@ -248,32 +249,28 @@ def run(ck):
         a, b = core.slice_trace(work, line, is_reset)
         one = os.path.join(ck.out, "single_%d.ndjson" % attempt)
         core.write_ndjson(one, work[a:b])
-        # does the named deviation O3 (F17) alone explain it?
-        v3 = validate(ck, one, True, "val_%d_o3" % attempt)
-        if v3["ok"]:
-            ck.violation(O3_KEY,
-                         "after a reconnect a link does not send the commit_sig it owes for the peer's updates (it had "
-                         "revoked, the links went down before it signed): the update stays on one commitment - HTLC left "
-                         "dangling at quiescence (F17), plan %s" % work[a].get("plan"),
-                         files={"trace.ndjson": one, "O3_plan.ndjson": os.path.join(SPEC, "repro", "O3_plan.ndjson")},
-                         text="strict validation: %s at line %d; accepted with OwedSigQuirk=TRUE\n%s\n%s" % (
-                             v["invariant"], line - a, describe(work[a:b]), v["cex"] or ""))
-        elif validate(ck, one, False, "val_%d_o4" % attempt, strand=True)["ok"]:
-            ck.violation(O4_KEY,
-                         "an incoming HTLC is left locked in and unanswered at quiescence: the incoming link was "
-                         "reconnected while ForwardPackets was between CommitCircuits and the hand-over to the forwarder "
-                         "(routeAsync gives up on the link's quit); the re-forwarded add is dropped as a duplicate (named "
-                         "deviation O4), plan %s; repro findings/F22cand_c08_stranded_add_repro_test.go.txt" % work[a].get("plan"),
-                         files={"trace.ndjson": one},
-                         text="strict validation: %s at line %d; accepted with StrandQuirk=TRUE\n%s\n%s" % (
-                             v["invariant"], line - a, describe(work[a:b]), v["cex"] or ""))
-        elif work[a].get("plan") == "b_00.ndjson":
+        plan = work[a].get("plan")
+        o3_text = ("after a reconnect a link does not send the commit_sig it owes for the peer's updates (it had "
+                   "revoked, the links went down before it signed): the update stays on one commitment - HTLC left "
+                   "dangling at quiescence (F17), plan %s" % plan)
+        ctx = "strict validation: %s at line %d\n%s\n%s" % (v["invariant"], line - a, describe(work[a:b]), v["cex"] or "")
+        if plan == "b_00.ndjson":
             ck.violation(F21_KEY,
                          "processRemoteAdds indexes a replayed forwarding package by the position in the filtered list: after "
                          "two reconnects the exit hop's link dies on a replayed, already settled add and the next payment is "
                          "never answered (F21); %s at line %d" % (v["invariant"], line - a),
-                         files={"trace.ndjson": one, "F21_plan.ndjson": os.path.join(SPEC, "repro", "F21_plan.ndjson")},
-                         text="%s\n%s" % (describe(work[a:b]), v["cex"] or ""))
+                         files={"trace.ndjson": one, "F21_plan.ndjson": os.path.join(SPEC, "repro", "F21_plan.ndjson")}, text=ctx)
+        elif plan == "b_0.ndjson" or validate(ck, one, True, "val_%d_o3" % attempt)["ok"]:
+            # the directed F17 schedule, or a trace that the named deviation O3 alone explains
+            ck.violation(O3_KEY, o3_text,
+                         files={"trace.ndjson": one, "O3_plan.ndjson": os.path.join(SPEC, "repro", "O3_plan.ndjson")}, text=ctx)
+        elif validate(ck, one, False, "val_%d_o4" % attempt, strand=True)["ok"]:
+            ck.violation(O4_KEY,
+                         "an incoming HTLC is left locked in and unanswered at quiescence: the incoming link was "
+                         "reconnected while ForwardPackets was between CommitCircuits and the hand-over to the forwarder "
+                         "(routeAsync gives up on the link's quit); the re-forwarded add is dropped as a duplicate (F22, named "
+                         "deviation O4), plan %s; repro findings/F22_repro_test.go.txt" % plan,
+                         files={"trace.ndjson": one}, text=ctx)
         else:
             report(ck, work, v, False, "v%d" % attempt)
         work = work[:a] + work[b:]
